@@ -27,7 +27,7 @@ def harnesses():
         out.append(H(f"c15_pkt_ser_l{l}", "C15", tier, f"pkt::dec_ser::<{l}>()", "pkt_dec_ser",
                      f"16 header bytes + {l} captured bytes, 1 symbolic compare index", 18))
     for k, n in enumerate(("sec", "usec", "caplen", "wirelen")):
-        out.append(H(f"c17_pkt_set_{n}", "C17", "quick" if n == "caplen" else "thorough", f"pkt::set::<4>({k})",
+        out.append(H(f"c17_pkt_set_{n}", "C17", "quick", f"pkt::set::<4>({k})",   # all four record-header setters are quick (fourth wave)
                      f"pkt_set_{n}", "16 header bytes + 4 captured bytes, assigned value any i64", 18))
     # ---- Pcap object via H4: global-header properties (C16) and their setters (C17)
     for ns, mn in ((False, "us"), (True, "ns")):
